@@ -91,8 +91,14 @@ def oracle_reference(ctx, label, factory):
     nb = int(sum(e._bfun_counts()))
     locs = np.asarray(e.doflocs, dtype=float)
     if locs.shape[0] != nb:
-        ctx.fail(f'elem={label}:doflocs-shape', f'{label}: doflocs has {locs.shape[0]} rows for {nb} basis functions',
-                 {'element': label})
+        if '.condensed()' in label:
+            ctx.fail('api=Element.condensed:doflocs-not-condensed',
+                     f'{label}: Element.condensed() copies doflocs unchanged: {locs.shape[0]} rows for {nb} basis functions, so row i is not '
+                     f'the location of basis function i (Basis(mesh, elem.condensed()[0]).doflocs reports a vertex for the interior DOF)',
+                     {'element': label, 'doflocs_rows': int(locs.shape[0]), 'basis_functions': nb, 'doflocs': locs.tolist()})
+        else:
+            ctx.fail(f'elem={label}:doflocs-shape', f'{label}: doflocs has {locs.shape[0]} rows for {nb} basis functions',
+                     {'element': label})
         return
     J = [j for j in range(nb) if np.all(np.isfinite(locs[j]))]
     skeleton = 'Skeleton' in label
@@ -208,10 +214,43 @@ def oracle(ctx, only=None):
             ctx.fail(f'elem={label}:lbasis-exception', f'{label}.lbasis raised {type(ex).__name__}: {ex}',
                      {'element': label, 'traceback': traceback.format_exc()[-1500:]})
         ctx.extra.setdefault('oracle_seconds', {})[label] = round(time.time() - t, 2)
+    if only is None:
+        try:
+            with warnings.catch_warnings():
+                warnings.simplefilter('ignore')
+                forms = c09_oracle.check_api_forms(ctx.fail, rng)
+            ctx.count(('api-forms', tuple(forms)), nontrivial=True)
+        except Exception as ex:  # noqa
+            import traceback
+            ctx.fail('api=exception', f'public wrapper raised {type(ex).__name__}: {ex}', {'traceback': traceback.format_exc()[-1500:]})
+    ctx.extra['api_coverage'] = API_COVERAGE
     ctx.extra['max_scaled_fd_discrepancy'] = worst_all
     ctx.extra['fd_tolerance'] = c09_oracle.TOL
     ctx.extra['wrapper_classes_exercised'] = wrappers
     ctx.sample({'kind': 'oracle', 'classes': len(facts), 'max_scaled_fd_discrepancy': worst_all})
+
+
+# public callables of the anchor files (skfem/element/**, the basis wrappers that hand gbasis to users), measured by
+# running the oracle under sys.setprofile and listing the public functions never executed (coverage audit)
+API_COVERAGE = [
+    {'callable': 'Element.gbasis / lbasis of every exported class, ElementVector/ElementDG/ElementComposite.gbasis, ElementGlobal.gbasis/'
+                 'gdof/_pbasis_*, ElementTriN3.gbasis, ElementLinePp/QuadP(p)', 'before': 'covered', 'now': 'covered'},
+    {'callable': 'Element.condensed() (both returned elements, index-shifted gbasis)', 'before': 'not covered',
+     'now': 'covered: FD oracle on condensed()[0] and [1] of TriP2B, TriRT2, Quad2, TetMini, TriN2'},
+    {'callable': 'Element.__mul__ (composite by *, nested)', 'before': 'not covered', 'now': 'covered: FD oracle on P2*P1 and (RT1*P0)*P1'},
+    {'callable': 'Element.__call__ (instance used like a class)', 'before': 'not covered', 'now': 'covered: ElementTetP1()()'},
+    {'callable': 'ElementDG.lbasis', 'before': 'not covered', 'now': 'covered: equals the wrapped lbasis'},
+    {'callable': 'Element.orient (default), ElementComposite.dim', 'before': 'not covered', 'now': 'covered (ones / 2)'},
+    {'callable': 'CellBasis.with_element, CellBasis.with_elements', 'before': 'not covered',
+     'now': 'covered: value and grad fields equal a newly constructed CellBasis (tri, multilinear quad, tet)'},
+    {'callable': 'CellBasis.probes, CellBasis.interpolator', 'before': 'not covered',
+     'now': 'covered: against direct gbasis evaluation with a random coefficient vector'},
+    {'callable': 'FacetBasis / InteriorFacetBasis construction (elementwise point layout)', 'before': 'covered (C03, C09 elementwise layout)', 'now': 'covered'},
+    {'callable': 'ElementH1/Hdiv/Hcurl.lbasis (abstract, raise NotImplementedError), Element.gbasis (abstract), Refdom.on_facet (base), '
+                 'DiscreteField.value', 'before': 'not covered', 'now': 'out of scope: abstract stubs / trivial accessor'},
+    {'callable': 'CellBasis.refinterp, point_source, project, boundary, plot*/draw; AbstractBasis.get_dofs/complement_dofs/zeros/ones/zero_w',
+     'before': 'not covered', 'now': 'out of scope for C09: consumers of the value only / DOF queries (C07) / plotting'},
+]
 
 
 # ------------------------------------------------------------------------------ the check
